@@ -38,8 +38,8 @@ SUB_OK = {
     ('util::ipush::IPush::ipush', "('const', 1)"): 'len() - 1 right after a push',
     ('builtin::sequence::XSequence::sample', '*'): 'u64::BITS - leading_zeros(): leading_zeros <= 64',
     ('builtin::sequence::XSequence::len', "('ref', '_1*as6.1')"): 'Slice(_, start, Some(end)): slice() builds a Slice only after its start >= end test returned Empty (R15.4), so end - start cannot underflow',
-    ('util::fenced_string::FencedString::substring::{closure#1}', '*'): 'table entries from position `start` on are >= char_starts[start]: from_string pushes the increasing char_indices',
-    ('util::fenced_string::FencedString::substring::{closure#2}', '*'): 'table entries from position `start` on are >= char_starts[start]: from_string pushes the increasing char_indices',
+    # (closures are looked up by their enclosing function: closure numbers shift when code moves)
+    ('util::fenced_string::FencedString::substring', 'closure:*'): 'i - start_byte over table entries from position `start` on, which are >= char_starts[start]: from_string pushes the increasing char_indices',
     ('builtin::regex::match_at', '*'): 'haystack().len() - start(): regex_automata Input keeps start <= len',
 }
 
@@ -298,10 +298,11 @@ def run(ctx):
                 if guards.implies_ge(f, x, y):
                     r6.inst({'body': b.id, 'site': mirq.site(b, bb), 'guard': 'dominating comparison'}, kind=(b.id, 'call', bb))
                     continue
-            listed = (b.nid, str(y)) in SUB_OK or (b.nid, '*') in SUB_OK
+            encl = strip_generics(mir.enclosing_fn(b)) if b.kind == 'closure' else None
+            listed = (b.nid, str(y)) in SUB_OK or (b.nid, '*') in SUB_OK or (encl is not None and (encl, 'closure:*') in SUB_OK)
             r6.inst({'body': b.id, 'site': mirq.site(b, bb), 'reference_arithmetic': cn.split(' as ')[0].strip('<') + ' ' + m_.group(3), 'listed': listed}, ok=listed, kind=(b.id, 'call', bb))
             if listed:
-                r6.exempted(b.nid, SUB_OK.get((b.nid, str(y))) or SUB_OK.get((b.nid, '*')))
+                r6.exempted(b.nid, SUB_OK.get((b.nid, str(y))) or SUB_OK.get((b.nid, '*')) or SUB_OK.get((encl, 'closure:*')))
             else:
                 bad.append(bb)
         if bad:
